@@ -37,6 +37,15 @@ def generic(pid, corrs, extra=None, thorough_extra=None, skel=None, pregen=None)
         return errs
 
     def run(work, res, tier):
+        # keep every regenerated Lean file in step with the CURRENT tree, not only this property's:
+        # the driver executable links all areas, and a file left over from a run against another tree
+        # (e.g. a mutated one) must never leak into this run
+        for other, chk in sorted(CHECKS.items()):
+            if other != pid and hasattr(chk, "pregen"):
+                try:
+                    chk.pregen(work)
+                except Exception:
+                    pass
         for e in do_pregen(work):
             res.obligation("regenerate Lean definitions from the current source", False, log=e[-2000:])
             res.broken_proof = {"obligation": "extractor (source no longer in the translated subset)", "errors": [e[-2000:]]}
